@@ -18,6 +18,16 @@ CLAIMS = {
             "DESIGN.md 4/C15"),
 }
 
+CLAIMS["C08"] = (
+    "inter-procedural parameter-flow (limits positions inferred from the member llimits and the API arguments) + branch-edge dominance (-1 sentinel) + post-dominance (lock-step iterator) + loop-exit lint",
+    "Static rule discharge over all 5 grid classes, the index manipulators and the API layer, every template instantiation: the persistent limits member reaches every selection "
+    "primitive on every call path (no site substitutes the argument, an empty vector or drops the parameter), limited/unlimited template variants are selected exactly by emptiness, "
+    "every read of a limit element is dominated by a test excluding the -1 sentinel on the same element, iterators walking the limits advance once per dimension on every path, and "
+    "the grow-until-min_growth loops have an exit that consults the limits. These are per-path facts, hence hold for all limit vectors, grids and histories.",
+    "The safety clause (no point beyond a limit) is decided structurally under the assumption that the limit primitives themselves compare the right level quantity (index vs level "
+    "mapping per rule is not checked). Termination in general is not decided, only the presence of a limits-consulting exit in the min_growth loops.",
+    "DESIGN.md 4/C08")
+
 PENDING = {}
 
 NOT_APPLICABLE = {}
